@@ -250,7 +250,7 @@ pub fn run(ctx: &mut Ctx) {
     ctx.check::<Case>(
         "dial",
         "pre-state (connected/dialing to P) x PeerCondition x explicit list (0..6, duplicates, own listen addresses, /p2p/P or foreign /p2p/Q suffixes) x behaviour list x extend flag x with/without peer id, on one real Swarm over the simulated transport; non-trivial = condition false, or a duplicate / own listen address in the input; distinct by case hash",
-        ctx.n(4000, 150_000),
+        ctx.n(60_000, 2_000_000),
         &|| {
             (0u8..3, any::<bool>(), any::<bool>(), proptest::bool::weighted(0.8), 0u8..4, proptest::collection::vec(spec(), 0..6), proptest::collection::vec(spec(), 0..4), any::<bool>())
                 .prop_map(|(listen, connected, dialing, with_peer, cond, explicit, behaviour, extend)| Case { listen, connected, dialing, with_peer, cond, explicit, behaviour, extend })
